@@ -196,15 +196,14 @@ class MPRNLRI(Attribute, Family):
         # - With LLNH negotiated, 16-byte link-local (fe80::/10) is explicitly allowed
         # - Semantic interpretation of 16-byte NH depends on LLNH negotiation
         if negotiated.nexthop:
-            if len_nh in (16, 32, 24):
-                nh_afi = AFI.ipv6
-            elif len_nh in (4, 12):
-                nh_afi = AFI.ipv4
-            else:
-                raise Notify(
-                    3, 0, 'unsupported family {} {} with extended next-hop capability enabled'.format(afi, safi)
-                )
-            length, _ = Family.size[(nh_afi, safi)]
+            # RFC 8950: the capability is negotiated per (afi, safi, next-hop afi).  A family which
+            # is not part of it keeps its own next-hop sizes: looking every family up under the
+            # next hop's AFI raised KeyError for l2vpn evpn, l2vpn vpls and bgp-ls (there is no
+            # (ipv4, evpn) size) as soon as the capability was negotiated for any family at all,
+            # and refused a FlowSpec route for its zero length next hop
+            nh_afi = AFI.ipv6 if len_nh in (16, 32, 24) else AFI.ipv4 if len_nh in (4, 12) else None
+            if nh_afi is not None and (afi, safi, nh_afi) in negotiated.nexthop and (nh_afi, safi) in Family.size:
+                length, _ = Family.size[(nh_afi, safi)]
 
         if len_nh not in length:
             raise Notify(
